@@ -57,7 +57,7 @@ class Ctx:
         e.ctx = self
         t0 = time.time()
         try:
-            res = e.explore(scenario, max_paths=max_paths, time_limit=time_limit)
+            res = e.explore(scenario, max_paths=max_paths, time_limit=time_limit, slim=True)
         except Unmodelled as u:
             raise Inconclusive('scenario %s: unmodelled: %s @ %s' % (name, u, getattr(u, 'mir_where', '')))
         except Budget as b:
@@ -284,8 +284,19 @@ def _vars_of(expr, seen=None):
     return out
 
 
+def _limit_memory(gb):
+    """a runaway exploration must fail in its own process (MemoryError -> inconclusive), not take the machine down"""
+    try:
+        import resource
+        lim = int(gb * (1 << 30))
+        resource.setrlimit(resource.RLIMIT_AS, (lim, lim))
+    except Exception:
+        pass
+
+
 def _par_entry(job):
     parent, worker = _PAR
+    _limit_memory(float(os.environ.get('VERIF_WORKER_GB', '6')))
     sub = Ctx(parent.pid, parent.tier, parent.seed)
     sub._engine = parent._engine; sub.mir_info = parent.mir_info
     try:
@@ -294,6 +305,8 @@ def _par_entry(job):
         return {'error': str(ex)}
     except (Unmodelled, Budget) as ex:
         return {'error': '%s @ %s' % (ex, getattr(ex, 'mir_where', ''))}
+    except MemoryError:
+        return {'error': 'worker exceeded its memory limit on job %s' % (str(job)[:200],)}
     except Exception as ex:
         return {'error': 'internal %s: %s\n%s' % (type(ex).__name__, ex, traceback.format_exc()[-1500:])}
     out = sub.export()
